@@ -209,6 +209,9 @@ def run(case):
                 add("add_start+end", use0, {"additional_starts": [inner[0]], "additional_ends": [inner[1]]},
                     {"_global_starts": [inner[0] + "|in"], "_global_ends": [inner[1] + "|out"]}, starts=[inner[0]], ends=[inner[1]])
         if cls in sweep.ERRM | {"MinErrorFlow"}:
+            # scale 0 == ignored; for the k-models also with k=None (k is then derived from the width of the NON-ignored elements)
+            for v in V[:3]:
+                add(f"scale0:{v}", use0, {"error_scaling": [[v, 0]]}, {"error_scaling": [[[v + "|in", v + "|out"], 0]]})
             add("scale", use0, {"error_scaling": [[V[0], 0.5]]}, {"error_scaling": [[[V[0] + "|in", V[0] + "|out"], 0.5]]})
 
     for name, ninst, nkw, ekw_extra, starts, ends in variants:
@@ -239,6 +242,8 @@ def run(case):
         elif cls.startswith("k"):
             ks = [w, w + 1] if cls not in ("kLeastAbsErrors", "kLeastAbsErrorsCycles") else [1, min(2, w + 1)]
             kws = [{"k": k, "weight_type": "int"} for k in ks]
+            if name.startswith("scale0") or name.startswith("ignored"):
+                kws.append({"k": None, "weight_type": "int"})
         else:
             kws = [{"weight_type": "int"}, {"weight_type": "float"}]
         for kw0 in kws:
